@@ -48,8 +48,8 @@ namespace ACluster
 def init (n : Nat) (causal : Bool) : ACluster := { base := Cluster.init n causal, snaps := [] }
 
 /-- the values of the deltas node `i` has absorbed for key `k`, oldest first -/
-def carriedOf (c : Cluster) (i k : Nat) : List RV :=
-  (c.log.filter (fun a => a.node = i ∧ a.key = k)).map (fun a => a.val)
+def carriedOf (log : List Absorbed) (i k : Nat) : List RV :=
+  (log.filter (fun a => a.node = i ∧ a.key = k)).map (fun a => a.val)
 
 def step (c : ACluster) : AEv → ACluster
   | .ev e => { c with base := c.base.step e }
@@ -59,7 +59,7 @@ def step (c : ACluster) : AEv → ACluster
     | some s =>
       match NMap.get s.keys k with
       | none => c
-      | some v => { c with snaps := c.snaps ++ [⟨i, k, v, carriedOf c.base i k⟩] }
+      | some v => { c with snaps := c.snaps ++ [⟨i, k, v, carriedOf c.base.log i k⟩] }
   | .applySnap j idx =>
     match c.base.nodes[j]?, c.snaps[idx]? with
     | some s, some sn =>
